@@ -33,8 +33,11 @@ import (
 // ------------------------------------------------------------------ generator
 
 func gen(g *common.Gen) {
+	// consecutive VERIF_SEEDs give splitmix streams shifted by one draw: re-seed from the first draw so
+	// that the batches of the thorough tier are unrelated
+	base := common.NewRand(g.R.U64() ^ 0x5bd1e995c07)
 	for i := 0; i < g.N; i++ {
-		r := g.R.Fork()
+		r := base.Fork()
 		// small alphabets: equal names, prefixes and siblings are frequent
 		u := common.NameUniverse{Alphabet: []string{"a", "b", "c"}[:r.Range(2, 3)], MaxDepth: r.Range(2, 4)}
 		capK := common.Pick(r, []int{0, 1, r.Range(2, 8), r.Range(2, 8)})
